@@ -8,6 +8,9 @@ Decided:
          simulation), the interpolation memo of GFunction, the g-function rebuilt from its own fields
   R13.2  mutable defaults: a list / dict / set default argument is only ever read (subscripted, iterated,
          passed on to a parameter that is itself only read)
+  R13.12 a table built on first use is emptied by whatever re-assigns the attributes it was built from
+  R13.11 every success path of GHEManager.set_design builds a new design object from the manager's current inputs and stores
+         it (the design keeps its own references to the input objects, which every setter replaces)
   R13.10 no stale derived state (a method replaces an attribute and leaves behind what the constructor computed from it; the
          three deliberate cases are listed with their reason), no memoised return under a key that leaves out a parameter
   R13.3  no function rebinds or mutates a module-level name
@@ -230,6 +233,8 @@ def check(prog: Program, tier: str) -> Result:
     _check_class_level_mutables(prog, res)
     _check_keyless_memos(prog, res)
     _check_stale_and_memo(prog, res)
+    _check_design_rebuilt(prog, res)
+    _check_lazy_tables(prog, res)
     _check_setters(prog, res, ea)
     _check_nominal_height(prog, res)
     return res
@@ -381,6 +386,126 @@ def _check_class_level_mutables(prog: Program, res: Result):
                               f"{c.name}.{a} is a class-level {type(st_.value).__name__.lower() if hasattr(st_, 'value') else 'container'} that {m.name}() changes in place and no constructor rebinds: all instances share it, "
                               "so what one design run records shows up in the next one")
     res.count("classes_scanned", n_cls)
+
+
+def _check_lazy_tables(prog: Program, res: Result):
+    """R13.12: a table an object builds on first use (`if len(self.T) == 0: self.T[...] = <from self.A, self.B>`) stays valid
+    only while A and B are what they were: every assignment of those attributes - from inside the class or, through another
+    object, from outside (`x.gFunction.g_lts = ...`) - other than in the constructor must empty or replace the table in the
+    same function."""
+    n_tab = 0
+    for cq, c in sorted(prog.classes.items()):
+        for mname, m in c.methods.items():
+            for n in walk_no_nested(m.node):
+                if not isinstance(n, ast.If):
+                    continue
+                t = n.test
+                T = None
+                # len(self.T) == 0 | not self.T  (after normalisation possibly with swapped branches: take the branch that fills the table)
+                for x in ast.walk(t):
+                    if isinstance(x, ast.Call) and attr_chain(x.func) == "len" and x.args and (attr_chain(x.args[0]) or "").startswith("self.") and attr_chain(x.args[0]).count(".") == 1:
+                        T = attr_chain(x.args[0])
+                if T is None:
+                    continue
+                fills = [b_ for blk in (n.body, n.orelse) for b_ in blk for y in ast.walk(b_)
+                         if isinstance(y, ast.Subscript) and isinstance(y.ctx, ast.Store) and attr_chain(y.value) == T]
+                if not fills:
+                    continue
+                blk = n.body if any(f_ in n.body for f_ in fills) else n.orelse
+                deps = {attr_chain(y) for b_ in blk for y in ast.walk(b_) if isinstance(y, ast.Attribute) and (attr_chain(y) or "").startswith("self.") and attr_chain(y).count(".") == 1} - {T}
+                dep_names = {d.split(".")[1] for d in deps}
+                tname = T.split(".")[1]
+                n_tab += 1
+                stale = []
+                for q2, f2 in sorted(prog.funcs.items()):
+                    if f2.name == "__init__" and f2.cls == c.name:
+                        continue
+                    writes = [(y, s2) for s2 in walk_no_nested(f2.node) if isinstance(s2, (ast.Assign, ast.AugAssign)) for tg in (s2.targets if isinstance(s2, ast.Assign) else [s2.target])
+                              for y in ([tg] if not isinstance(tg, (ast.Tuple, ast.List)) else tg.elts) if isinstance(y, ast.Attribute) and y.attr in dep_names]
+                    for y, s2 in writes:
+                        base = attr_chain(y.value)
+                        if base is None:
+                            continue
+                        if base == "self" and f2.cls != c.name and not any(cc.name == f2.cls for cc in prog.subclasses(cq)):
+                            continue  # another class' attribute of the same name
+                        if base != "self" and not base.endswith(("gFunction", "g_function")) and c.name == "GFunction":
+                            continue
+                        resets = any(isinstance(z, (ast.Assign,)) and any(isinstance(tt, ast.Attribute) and tt.attr == tname and attr_chain(tt.value) == base for tt in z.targets) for z in walk_no_nested(f2.node)) \
+                            or any(isinstance(z, ast.Call) and isinstance(z.func, ast.Attribute) and z.func.attr == "clear" and isinstance(z.func.value, ast.Attribute) and z.func.value.attr == tname and attr_chain(z.func.value.value) == base for z in walk_no_nested(f2.node))
+                        if not resets:
+                            stale.append((f2, s2, f"{base}.{y.attr}"))
+                res.ob("R13.12", f"{c.name}.{mname}: {T} is built on first use from {sorted(deps)}; nothing re-assigns those without emptying it", not stale, prog.loc(m, n))
+                for f2, s2, what in stale[:3]:
+                    res.violation("R13.12", f"lazy-table|{cq}|{T}|{f2.qualname}|{what}", prog.loc(f2, s2), f2.qualname,
+                                  f"'{norm_stmt(s2)[:80]}' replaces {what}, from which {c.name}.{mname} built {T} on first use, without emptying that table: "
+                                  "an object that has interpolated before keeps answering from the previous curves")
+    res.count("lazy_tables", n_tab)
+    res.floor("lazy_tables", 1)
+
+
+def _check_design_rebuilt(prog: Program, res: Result):
+    """R13.11: the design object holds its own references to every input object (borehole, pipe, fluid, grout, soil, limits,
+    loads), and every setter REPLACES those objects.  A set_design that reports success while keeping an earlier design object
+    therefore searches with the configuration of an earlier call.  On every path that returns 0, set_design must have built a
+    design from the manager's current attributes and this call's arguments, and stored it."""
+    from ..model import bind_args
+    from ..paths import Obj
+
+    sd = prog.func("ghedesigner.manager.GHEManager.set_design")
+    DES = "ghedesigner.design"
+    dclasses = {c.name: c for q, c in prog.classes.items() if q.startswith(DES + ".") and c.name != "DesignBase" and prog.method(q, "__init__") is not None}
+    if len(dclasses) < 5:
+        raise AnalysisError("design classes not found")
+
+    class HD(Hooks):
+        def on_call(self, node, fname, args, kwargs, st, eng):
+            if fname in dclasses:
+                init_ = prog.method(dclasses[fname].qualname, "__init__")
+                st.emit("DESIGN", (fname, {k: v for k, v in bind_args(init_, node).items()}), node)
+                return Obj(f"DESIGN#{fname}#{node.lineno}")
+            return None
+
+        def on_assign(self, key, val, stmt, st, eng):
+            if key == "self._design":
+                st.emit("STORE", val, stmt)
+
+    e_ = Engine(prog, sd, HD())
+    s_ = State()
+    for p_ in sd.params():
+        s_.env[p_] = Rat.atom(p_)
+    n_ok = 0
+    seen = set()
+    for f_ in e_.run_function(s_):
+        if f_.exit is None or f_.exit[0] != "return":
+            continue
+        rv = f_.exit[1]
+        if not (isinstance(rv, Rat) and rv.is_const() and rv.const_value() == 0):
+            continue
+        n_ok += 1
+        ds = [e for e in f_.events if e.kind == "DESIGN"]
+        stored = [e for e in f_.events if e.kind == "STORE" and isinstance(e.data, Obj)]
+        ok = len(ds) == 1 and len(stored) >= 1
+        stale = []
+        if ok:
+            # every constructor argument is an attribute of the manager as it is NOW, a parameter of this call, or a local derived from one
+            params = set(sd.params())
+            for k, v in ds[0].data[1].items():
+                names = {x.id for x in ast.walk(v) if isinstance(x, ast.Name)}
+                chains = {attr_chain(x) for x in ast.walk(v) if isinstance(x, ast.Attribute) and attr_chain(x)}
+                if any(c and c.startswith("self._design") for c in chains):
+                    stale.append(k)
+        okk = ok and not stale
+        key = (f_.exit[2].lineno, okk, ds[0].data[0] if ds else None)
+        if key in seen:
+            continue
+        seen.add(key)
+        res.ob("R13.11", f"set_design reports success after building {ds[0].data[0] if ds else 'NO design object'} from the manager's current inputs and storing it", okk, prog.loc(sd, f_.exit[2]))
+        if not okk:
+            res.violation("R13.11", f"design-kept|{'no-design' if not ds else 'from-old-design:' + ','.join(stale)}", prog.loc(sd, f_.exit[2]), sd.qualname,
+                          "set_design returns 0 on a path that keeps (or copies from) the earlier design object: that object still refers to the borehole / pipe / fluid / grout / soil / limits / loads "
+                          "objects of the earlier call, which the setters have since replaced - the search then runs with an earlier configuration")
+    if n_ok < 6:
+        raise AnalysisError(f"{sd.qualname}: success paths not found ({n_ok})")
 
 
 STALE_ACCEPT = {
@@ -754,6 +879,12 @@ def _check_nominal_height(prog: Program, res: Result):
 
 M = "ghedesigner.manager"
 VARIANTS = [
+    Variant("compute_g_functions writes the new curves into the existing g-function object (seeded C13_h)", "break",
+            [(GHX, "        self.gFunction = g_function\n\n\nclass GHE(BaseGHE):", "        self.gFunction.g_lts = g_function.g_lts\n        self.gFunction.r_b_values = g_function.r_b_values\n\n\nclass GHE(BaseGHE):")], "R13.12"),
+    Variant("compute_g_functions writes the new curves into the existing g-function object and empties its interpolation table", "benign",
+            [(GHX, "        self.gFunction = g_function\n\n\nclass GHE(BaseGHE):", "        self.gFunction.g_lts = g_function.g_lts\n        self.gFunction.r_b_values = g_function.r_b_values\n        self.gFunction.interpolation_table = {}\n\n\nclass GHE(BaseGHE):")]),
+    Variant("set_design keeps the existing design object when the geometry is unchanged and updates only the flow (seeded C13_g)", "break",
+            [(M, "        if self._geometric_constraints.type == DesignGeomType.NEARSQUARE:\n", "        if self._design is not None and self._design.geometric_constraints is self._geometric_constraints:\n            self._design.V_flow = flow_rate\n            self._design.flow_type = flow_type\n            return 0\n        if self._geometric_constraints.type == DesignGeomType.NEARSQUARE:\n")], "R13.11"),
     Variant("RadialNumericalBH-style half refresh in the GHE: a method replaces the borehole spacing but not what was derived from it", "break",
             [(GHX, "        self.B_spacing = b_spacing\n", "        self.B_spacing = b_spacing\n        self.B_over_max = self.B_spacing / 400.0\n"),
              (GHX, "    def as_dict(self) -> dict:\n        output = {}\n        output['title'] = f\"GHEDesigner GHE Output - Version {VERSION}\"", "    def respace(self, b):\n        self.B_spacing = b\n\n    def as_dict(self) -> dict:\n        output = {}\n        output['title'] = f\"GHEDesigner GHE Output - Version {VERSION}\"")], "R13.10"),
